@@ -3,7 +3,10 @@
    system.
 
    Actors and channels (portfolio.py line numbers):
-     parent      Portfolio._solve (132-180), get_value/get_model (182-207), _close_existing (209-216)
+     parent      Portfolio._solve, get_value/get_model, _close_existing (as repaired: the queue
+                 loop counts the members that reported an exception and raises the last one once
+                 all have, and polls the queue with a timeout, raising InternalSolverError when
+                 the queue is empty and no member process is alive any more)
      child i     _run_solver (224-264), one process per member, all started by 146-157
      queue       signaling_queue (142): FIFO, written by every child, read by the parent only
      cq / cr     the SINGLE control pipe (143-144; the same child end is handed to EVERY child, 154):
@@ -49,12 +52,14 @@ Inductive qmsg := MAns (i : nat) (b : bool) | MExc (i : nat).
 
 (* program counter of the parent *)
 Inductive ppc :=
-| PWait                                         (* 160: signaling_queue.get(block=True) *)
+| PWait (seen : list nat)                       (* the queue loop; `failed` = length seen (the members
+                                                   whose exception was consumed; only the length is used) *)
 | PTerm (w : nat) (b : bool) (todo : list nat)  (* 174-178: the terminate loop, todo = processes left *)
 | PRaise (i : nat) (todo : list nat)            (* 164-166: exit_on_exception *)
 | PIdle (w : nat) (b : bool) (rest : list cmd)  (* _solve returned b; queries still to make *)
 | PAwait (w : nat) (b : bool) (q : cmd) (rest : list cmd)   (* 188 / 201: _ctrl_pipe.recv() *)
 | PErr (i : nat)                                (* _solve raised member i's exception *)
+| PDead                                         (* _solve raised InternalSolverError: nobody left *)
 | PFinal (w : nat) (b : bool).                  (* _close_existing done *)
 
 Record state := mkSt {
@@ -76,7 +81,7 @@ Definition alive (k : child) : bool :=
   match pc k with CDone | CDead => false | _ => true end.
 
 Definition init (c : config) : state :=
-  mkSt (fun _ => mkChild CRun false) [] [] [] PWait [].
+  mkSt (fun _ => mkChild CRun false) [] [] [] (PWait []) [].
 
 Definition child_step (c : config) (s : state) (i : nat) : option state :=
   match nth_error (members c) i with
@@ -116,13 +121,18 @@ Definition all_idx (c : config) : list nat := seq 0 (length (members c)).
 
 Definition parent_step (c : config) (s : state) : option state :=
   match par s with
-  | PWait =>
+  | PWait seen =>
       match queue s with
-      | [] => None
+      | [] =>
+          (* get(timeout) raised Empty: go on unless no member process is alive *)
+          if forallb (fun i => negb (alive (kids s i))) (all_idx c)
+          then Some (mkSt (kids s) [] (cq s) (cr s) PDead (resp s))
+          else None
       | MAns i b :: r => Some (mkSt (kids s) r (cq s) (cr s) (PTerm i b (all_idx c)) (resp s))
       | MExc i :: r =>
-          if eoe c then Some (mkSt (kids s) r (cq s) (cr s) (PRaise i (all_idx c)) (resp s))
-          else Some (mkSt (kids s) r (cq s) (cr s) PWait (resp s))
+          if eoe c || Nat.eqb (S (length seen)) (length (members c))
+          then Some (mkSt (kids s) r (cq s) (cr s) (PRaise i (all_idx c)) (resp s))
+          else Some (mkSt (kids s) r (cq s) (cr s) (PWait (i :: seen)) (resp s))
       end
   | PTerm w b [] => Some (mkSt (kids s) (queue s) (cq s) (cr s) (PIdle w b (script c)) (resp s))
   | PTerm w b (j :: t) =>
@@ -140,7 +150,7 @@ Definition parent_step (c : config) (s : state) : option state :=
       | [] => None
       | (i, _) :: r => Some (mkSt (kids s) (queue s) (cq s) r (PIdle w b t) (i :: resp s))
       end
-  | PErr _ | PFinal _ _ => None
+  | PErr _ | PDead | PFinal _ _ => None
   end.
 
 Definition step (c : config) (s : state) (l : label) : option state :=
@@ -166,7 +176,7 @@ Definition returned (s : state) : option (nat * bool) :=
   end.
 
 Definition final (s : state) : bool :=
-  match par s with PErr _ | PFinal _ _ => true | _ => false end.
+  match par s with PErr _ | PDead | PFinal _ _ => true | _ => false end.
 
 Definition labels (c : config) : list label :=
   LParent :: flat_map (fun i => [LChild i; LKill i]) (all_idx c).
@@ -185,6 +195,7 @@ Definition all_fail (c : config) : bool := forallb (fun bh => negb (answers bh))
 Inductive outcome :=
 | OVerdict (b : bool) (w : nat) (responders : list nat)  (* solve returned b, survivor w, who served each query *)
 | OError (i : nat)                                       (* solve raised member i's exception *)
+| ONoAnswer                                              (* solve raised InternalSolverError *)
 | OBlockedSolve                                          (* deadlock inside _solve *)
 | OBlockedQuery (b : bool) (w : nat) (responders : list nat)  (* deadlock inside get_model/get_value *)
 | ORunning.
@@ -193,7 +204,8 @@ Definition outcome_of (c : config) (s : state) : outcome :=
   match par s with
   | PFinal w b => OVerdict b w (rev (resp s))
   | PErr i => OError i
-  | PWait => if stuck c s then OBlockedSolve else ORunning
+  | PDead => ONoAnswer
+  | PWait _ => if stuck c s then OBlockedSolve else ORunning
   | PAwait w b _ _ => if stuck c s then OBlockedQuery b w (rev (resp s)) else ORunning
   | _ => ORunning
   end.
@@ -206,6 +218,7 @@ Definition outcome_eqb (a b : outcome) : bool :=
   | OVerdict b1 w1 r1, OVerdict b2 w2 r2 => Bool.eqb b1 b2 && Nat.eqb w1 w2 && list_nat_eqb r1 r2
   | OError i, OError j => Nat.eqb i j
   | OBlockedSolve, OBlockedSolve => true
+  | ONoAnswer, ONoAnswer => true
   | OBlockedQuery b1 w1 r1, OBlockedQuery b2 w2 r2 => Bool.eqb b1 b2 && Nat.eqb w1 w2 && list_nat_eqb r1 r2
   | ORunning, ORunning => true
   | _, _ => false
@@ -228,13 +241,14 @@ Definition digits (c : config) (s : state) : list nat :=
   ++ sep :: map (fun w => match w with WExit => 0 | WQuery q => 1 + q_code q end) (cq s)
   ++ sep :: map (fun r => 2 * fst r + q_code (snd r)) (cr s)
   ++ sep :: (match par s with
-             | PWait => [0]
+             | PWait seen => [0; length seen]
              | PTerm w _ todo => [1; w; length todo]
              | PRaise i todo => [2; i; length todo]
              | PIdle w _ rest => [3; w; length rest]
              | PAwait w _ _ rest => [4; w; length rest]
              | PErr i => [5; i]
              | PFinal w _ => [6; w]
+             | PDead => [7]
              end)
   ++ sep :: resp s.
 
